@@ -490,6 +490,7 @@ struct MinerView {
     et: bool,
     pps: i64,
     table: Tbl,
+    raw: Option<((i64, i128), Tbl)>,
 }
 
 fn view(n: &Net) -> MinerView {
@@ -510,6 +511,7 @@ fn view(n: &Net) -> MinerView {
         et: !st.early_terminations.is_empty(),
         pps: st.proving_period_start,
         table: tbl_of(&st.vesting_funds.load(store).unwrap()),
+        raw: raw_of(&st.vesting_funds, store),
     }
 }
 
@@ -518,9 +520,13 @@ fn show_view(v: &MinerView) -> String {
 }
 
 fn mset_line(v: &MinerView) -> String {
+    let (head, tail) = match &v.raw {
+        None => ("-".to_string(), "-".to_string()),
+        Some((h, t)) => (format!("{}:{}", h.0, h.1), show_tbl(t)),
+    };
     format!(
-        "mset {} {} {} {} {} {} {} {} {} {} {} {}",
-        v.owner, v.beneficiary, v.quota, v.used, v.expiration, v.balance, v.lf, v.pcd, v.ip, v.debt, v.et as u8, show_tbl(&v.table)
+        "mset {} {} {} {} {} {} {} {} {} {} {} {} {}",
+        v.owner, v.beneficiary, v.quota, v.used, v.expiration, v.balance, v.lf, v.pcd, v.ip, v.debt, v.et as u8, head, tail
     )
 }
 
@@ -584,7 +590,7 @@ fn actor_sequence(cfg: &RunCfg, seq: u64, rep: &mut Report, lean: &mut Option<Le
             // ---- harness-planted collateral / pending early terminations (states that sector
             //      onboarding and terminations produce; planted directly to keep sequences short)
             let avail = before.balance - before.lf - before.pcd - before.ip;
-            let what = r.below(4);
+            let what = match r.below(7) { 0 | 1 => 0, 2 | 3 => 1, 4 => 2, _ => 3 };
             let amt = if avail > 0 { (r.next() as i128).rem_euclid(avail / 2 + 1) } else { 0 };
             mutate_state(&n.w.vm, &n.miner, |st: &mut MinerState| match what {
                 0 => st.pre_commit_deposits = tok(amt),
@@ -676,6 +682,14 @@ fn actor_sequence(cfg: &RunCfg, seq: u64, rep: &mut Report, lean: &mut Option<Le
             continue;
         }
         // ---- WithdrawBalance
+        // (pending early terminations block every withdrawal: keep most attempts unblocked)
+        let before = if before.et && r.chance(2, 3) {
+            mutate_state(&n.w.vm, &n.miner, |st: &mut MinerState| st.early_terminations = BitField::new());
+            lines.push("# plant early_terminations clear 0".into());
+            view(&n)
+        } else {
+            before
+        };
         let avail_now = {
             let vested = if before.lf != 0 { vested_sum(&before.table, epoch) } else { 0 };
             before.balance - (before.lf - vested) - before.pcd - before.ip - before.debt
@@ -786,7 +800,7 @@ const ACTOR_BASE: u64 = 1_000_000;
 pub fn run(cfg: &RunCfg) -> Report {
     let mut rep = Report::new("C14", cfg.seed, &cfg.tier);
     rep.nontrivial_rule = "a sequence is non-trivial when funds were locked and later some amount left the table (vested unlock, forced unlock) or a withdrawal/burn moved tokens; distinct = distinct hash of the op lines".into();
-    let (n_ds, n_actor) = if cfg.thorough() { (4000u64, 300u64) } else { (250, 24) };
+    let (n_ds, n_actor) = if cfg.thorough() { (6000u64, 600u64) } else { (600, 60) };
     let (n_ds, n_actor) = (n_ds * cfg.budget, n_actor * cfg.budget);
     let mut lean = if cfg.use_lean { Some(LeanDriver::spawn("vesting").expect("lean driver")) } else { None };
     let mut seen = HashSet::new();
